@@ -237,3 +237,6 @@ func checkValidate(c sim.ChainCase) error {
 
 func TestValidate(t *testing.T)       { stats.Prop(t, drawValidate, checkValidate) }
 func TestReplayValidate(t *testing.T) { stats.Replay(t, "TestValidate", checkValidate) }
+
+// TestRegressValidate runs the committed regression histories (replays/C10/regress-*.json recorded by TestValidate).
+func TestRegressValidate(t *testing.T) { stats.Regress(t, "TestValidate", checkValidate) }
